@@ -1059,8 +1059,15 @@ pub fn mutate(mut d: Draft, which: &'static str, c: &mut Choices) -> Mutated {
             whole = Some(o);
         }
         "size-boundary" => {
-            let target = 297 + c.below(8);
-            solve_size(&mut d, target, c);
+            if c.chance(40) {
+                // far above the limit, around the points where the outer header grows (256, 64 KiB) and beyond:
+                // a correctly signed record that is simply too big
+                let n = *c.pick(&[240usize, 256, 1000, 65_400, 65_536, 65_600, 70_000, 200_000]);
+                d.set(b"zz", rlp::encode_str(&vec![0x7a; n]));
+            } else {
+                let target = 297 + c.below(8);
+                solve_size(&mut d, target, c);
+            }
         }
         "other-scheme-entry-list" => {
             let other = match d.scheme {
